@@ -10,6 +10,13 @@ Domain restrictions (documented domains of the shapes):
 Only documented shape names are generated (the table of the Env class
 documentation: step, lin/linear, exp/exponential, sin/sine, wel/welch,
 sqr/squared, cub/cubed, hold).
+
+Constructor calls are generated in two steps so that other shards can put
+signal placeholders (model_env.Sig) into the arguments first:
+gen_ctor_kwargs(rng) -> (name, kwargs, flags) and ctor_expected(name, kwargs) ->
+the documented breakpoints (pure, works symbolically).  adsr / dadsr draw
+list-valued (multichannel) bias values as they do for every other "list |
+float | int" parameter.
 """
 
 ANY_SIGN_NAMES = ['step', 'lin', 'linear', 'sin', 'sine', 'wel', 'welch', 'hold']
@@ -191,6 +198,14 @@ def gen_ctor_call(rng):
     """-> (name, kwargs, expected) where expected is dict(levels, times, curves,
     release_node, loop_node[, offset, xs]) from the documentation of the
     constructor, or check flags."""
+    name, kw, flags = gen_ctor_kwargs(rng)
+    exp = ctor_expected(name, kw)
+    exp.update(flags)
+    return name, kw, exp
+
+
+def gen_ctor_kwargs(rng):
+    """-> (name, kwargs, flags): a random call of a standard constructor."""
     name = rng.choice(['triangle', 'sine', 'perc', 'linen', 'cutoff', 'adsr',
                        'dadsr', 'asr', 'step', 'pairs', 'xyc'])
     tm1 = lambda: rng.choice([0.01, 0.1, 1, 1.0, 0.3, 2, 0.5, 0, 0.0,
@@ -209,6 +224,7 @@ def gen_ctor_call(rng):
                                     'cub', 'exp', 'linear', 'sine', 'welch',
                                     'squared', 'cubed', 'exponential',
                                     'step', 'hold'])
+    flags = {}
 
     def some(kwargs):
         # drop a random subset so that the documented defaults are exercised
@@ -216,86 +232,36 @@ def gen_ctor_call(rng):
 
     if name in ('triangle', 'sine'):
         kw = some(dict(dur=tm(), level=lv()))
-        dur = kw.get('dur', 1.0)
-        level = kw.get('level', 1.0)
-        exp = dict(levels=[0, level, 0],
-                   times=[ew(mul, dur, 0.5), ew(mul, dur, 0.5)],
-                   curves='lin' if name == 'triangle' else 'sine',
-                   release_node=None, loop_node=None)
     elif name == 'perc':
         kw = some(dict(attack_time=tm(), release_time=tm(), level=lv(),
                        curve=any_curve()))
-        exp = dict(levels=[0, kw.get('level', 1.0), 0],
-                   times=[kw.get('attack_time', 0.01),
-                          kw.get('release_time', 1.0)],
-                   curves=kw.get('curve', -4.0), release_node=None,
-                   loop_node=None)
     elif name == 'linen':
         kw = some(dict(attack_time=tm(), sustain_time=tm(), release_time=tm(),
                        level=lv(), curve=rng.choice(['lin', 'sin', 'wel',
                                                      num_curve()])))
-        level = kw.get('level', 1.0)
-        exp = dict(levels=[0, level, level, 0],
-                   times=[kw.get('attack_time', 0.01),
-                          kw.get('sustain_time', 1.0),
-                          kw.get('release_time', 1.0)],
-                   curves=kw.get('curve', 'lin'), release_node=None,
-                   loop_node=None)
     elif name == 'cutoff':
         kw = some(dict(release_time=tm(), level=lv(),
                        curve=rng.choice(['lin', 'sin', 'exp', 'exponential',
                                          'wel', num_curve()])))
-        curve = kw.get('curve', 'lin')
-        # documented: "sustains at the peak level until released", fades to
-        # zero (-100 dB for exponential curves, which cannot reach zero)
-        end = 10 ** (-100 / 20) if curve in ('exp', 'exponential') else 0
-        exp = dict(levels=[kw.get('level', 1.0), end],
-                   times=[kw.get('release_time', 0.1)], curves=curve,
-                   release_node=0, loop_node=None)
     elif name in ('adsr', 'dadsr'):
         kw = dict(attack_time=tm(), decay_time=tm(),
                   sustain_level=many(lambda: rng.choice(
                       [0.5, 0.25, 1, 0.1, round(rng.random(), 2)])),
                   release_time=tm(), peak_level=lv(), curve=any_curve(),
-                  bias=rng.choice([0, 0.0, 0.5, -1, 2]))
+                  bias=many(lambda: rng.choice([0, 0.0, 0.5, -1, 2])))
         if name == 'dadsr':
             kw['delay_time'] = tm()
         kw = some(kw)
-        peak = kw.get('peak_level', 1.0)
-        sus = kw.get('sustain_level', 0.5)
-        bias = kw.get('bias', 0.0)
-        levels = [0, peak, ew(mul, peak, sus), 0]
-        times = [kw.get('attack_time', 0.01), kw.get('decay_time', 0.3),
-                 kw.get('release_time', 1.0)]
-        rel = 2
-        if name == 'dadsr':
-            levels = [0] + levels
-            times = [kw.get('delay_time', 0.1)] + times
-            rel = 3
-        exp = dict(levels=[ew(add, x, bias) for x in levels], times=times,
-                   curves=kw.get('curve', -4.0), release_node=rel,
-                   loop_node=None)
     elif name == 'asr':
         kw = some(dict(attack_time=tm(), sustain_level=lv(), release_time=tm(),
                        curve=any_curve()))
-        exp = dict(levels=[0, kw.get('sustain_level', 1.0), 0],
-                   times=[kw.get('attack_time', 0.01),
-                          kw.get('release_time', 1.0)],
-                   curves=kw.get('curve', -4.0), release_node=1, loop_node=None)
     elif name == 'step':
         n = rng.randint(1, 6)
         levels = [lv() for _ in range(n)]
         times = [tm() for _ in range(n)]
         kw = dict(levels=levels, times=times)
-        with_release = rng.random() < 0.4
-        if with_release:
+        if rng.random() < 0.4:
             kw['release_level'] = rng.randint(1, n)
-        # documented: n levels for n times, each the fixed value of its
-        # segment; no release/loop node unless given
-        exp = dict(levels=[levels[0]] + levels, times=list(times),
-                   curves='step',
-                   release_node=None if not with_release else 'unchecked',
-                   loop_node=None)
     else:  # pairs, xyc
         # Points in the order the caller writes them; documented: "pairs are
         # sorted regarding their point in time" - by time only, so points on
@@ -335,32 +301,112 @@ def gen_ctor_call(rng):
             keys = list(groups)
             rng.shuffle(keys)
             given = [q for k in keys for q in groups[k]]
-        order = sorted(given, key=lambda q: q[0])     # stable, by time only
-        xs = [q[0] for q in order]
-        ys = [q[1] for q in order]
         if name == 'pairs':
             c = rng.choice(['none', 'scalar', 'list', 'list'])
             if c == 'none':
                 kw = dict(pairs=[q[:2] for q in given])
-                curves = ['lin'] * len(xs)
             elif c == 'scalar':
                 cv = rng.choice(cont + ['step', 'hold'])
                 kw = dict(pairs=[q[:2] for q in given], curves=cv)
-                curves = [cv] * len(xs)
             else:
                 kw = dict(pairs=[q[:2] for q in given],
                           curves=[q[2] for q in given])
-                curves = [q[2] for q in order]
         else:
             kw = dict(xyc=[list(q) for q in given])
-            curves = [q[2] for q in order]
-        exp = dict(levels=ys, times=[b - a for a, b in zip(xs, xs[1:])],
-                   curves=curves[:-1], release_node=None, loop_node=None,
-                   xs=xs, dyadic=dy,
-                   equal_times=len(set(xs)) < len(xs),
-                   drop=any(a == b and v < u for a, b, u, v in
-                            zip(xs, xs[1:], ys, ys[1:])),
-                   same_point_mixed_curves=any(
-                       p[:2] == q[:2] and type(p[2]) is not type(q[2])
-                       for p, q in zip(order, order[1:])))
-    return name, kw, exp
+        flags['dyadic'] = dy
+    return name, kw, flags
+
+
+def ctor_expected(name, kw):
+    """The breakpoints the documentation of constructor `name` states for the
+    call `name(**kw)`: dict(levels, times, curves, release_node, loop_node
+    [, xs and flags for the point constructors]).  Parameters may be
+    model_env.Signal placeholders (the arithmetic then yields expressions)."""
+    if name in ('triangle', 'sine'):
+        dur = kw.get('dur', 1.0)
+        level = kw.get('level', 1.0)
+        return dict(levels=[0, level, 0],
+                    times=[ew(mul, dur, 0.5), ew(mul, dur, 0.5)],
+                    curves='lin' if name == 'triangle' else 'sine',
+                    release_node=None, loop_node=None)
+    if name == 'perc':
+        return dict(levels=[0, kw.get('level', 1.0), 0],
+                    times=[kw.get('attack_time', 0.01),
+                           kw.get('release_time', 1.0)],
+                    curves=kw.get('curve', -4.0), release_node=None,
+                    loop_node=None)
+    if name == 'linen':
+        level = kw.get('level', 1.0)
+        return dict(levels=[0, level, level, 0],
+                    times=[kw.get('attack_time', 0.01),
+                           kw.get('sustain_time', 1.0),
+                           kw.get('release_time', 1.0)],
+                    curves=kw.get('curve', 'lin'), release_node=None,
+                    loop_node=None)
+    if name == 'cutoff':
+        curve = kw.get('curve', 'lin')
+        # documented: "sustains at the peak level until released", fades to
+        # zero (-100 dB for exponential curves, which cannot reach zero)
+        end = 10 ** (-100 / 20) if isinstance(curve, str) and \
+            curve in ('exp', 'exponential') else 0
+        return dict(levels=[kw.get('level', 1.0), end],
+                    times=[kw.get('release_time', 0.1)], curves=curve,
+                    release_node=0, loop_node=None)
+    if name in ('adsr', 'dadsr'):
+        peak = kw.get('peak_level', 1.0)
+        sus = kw.get('sustain_level', 0.5)
+        bias = kw.get('bias', 0.0)
+        levels = [0, peak, ew(mul, peak, sus), 0]
+        times = [kw.get('attack_time', 0.01), kw.get('decay_time', 0.3),
+                 kw.get('release_time', 1.0)]
+        rel = 2
+        if name == 'dadsr':
+            levels = [0] + levels
+            times = [kw.get('delay_time', 0.1)] + times
+            rel = 3
+        return dict(levels=[ew(add, x, bias) for x in levels], times=times,
+                    curves=kw.get('curve', -4.0), release_node=rel,
+                    loop_node=None)
+    if name == 'asr':
+        return dict(levels=[0, kw.get('sustain_level', 1.0), 0],
+                    times=[kw.get('attack_time', 0.01),
+                           kw.get('release_time', 1.0)],
+                    curves=kw.get('curve', -4.0), release_node=1,
+                    loop_node=None)
+    if name == 'step':
+        levels, times = kw['levels'], kw['times']
+        # documented: n levels for n times, each the fixed value of its
+        # segment; no release/loop node unless given
+        return dict(levels=[levels[0]] + list(levels), times=list(times),
+                    curves='step',
+                    release_node='unchecked' if 'release_level' in kw else None,
+                    loop_node=None)
+    # pairs, xyc
+    if name == 'pairs':
+        pairs = kw['pairs']
+        cv = kw.get('curves')
+        if cv is None:
+            given = [[q[0], q[1], 'lin'] for q in pairs]
+        elif isinstance(cv, list):
+            given = [[q[0], q[1], c] for q, c in zip(pairs, cv)]
+        else:
+            given = [[q[0], q[1], cv] for q in pairs]
+    else:
+        given = [list(q) for q in kw['xyc']]
+    order = sorted(given, key=lambda q: q[0])     # stable, by time only
+    xs = [q[0] for q in order]
+    ys = [q[1] for q in order]
+    curves = [q[2] for q in order]
+    return dict(levels=ys, times=[b - a for a, b in zip(xs, xs[1:])],
+                curves=curves[:-1], release_node=None, loop_node=None,
+                xs=xs,
+                equal_times=len(set(xs)) < len(xs),
+                drop=any(a == b and not _sym(u) and not _sym(v) and v < u
+                         for a, b, u, v in zip(xs, xs[1:], ys, ys[1:])),
+                same_point_mixed_curves=any(
+                    p[:2] == q[:2] and type(p[2]) is not type(q[2])
+                    for p, q in zip(order, order[1:])))
+
+
+def _sym(x):
+    return not isinstance(x, (int, float))
